@@ -87,13 +87,22 @@ def doStart (s : St) (disk : Store) (r : Except CacheDir.StartErr' (Node × List
   | .ok (n, ws) =>
     ({ s with node := n, before := disk, ws := ws, alive := true }, "start " ++ observe n "ok" ws "-")
 
+/-- `crash … sk=<n> sa=<addr>` / `restart … sk=<n> sa=<addr>`: the operator restarts the node with signing key `n`
+(address `sa`) -/
+def swapKey (c : Cfg) (o : Op) : Cfg :=
+  if o.nat "sk" = 0 then c else { c with key := o.nat "sk", signerAddr := o.bytes "sa" }
+
 def step (f : CacheDir.Facts) (s : St) (line : String) : St × String :=
   let o := parseOp line
   match o.verb with
   | "reset" =>
     let pa := o.bytes "pa"
+    -- `sk=<n> sa=<addr>`: the node runs with signing key `n` whose address is `sa` (default: the genesis proposer's
+    -- key 1 and address `pa`); a foreign signer is `sk=2 sa=<address of key 2>`
+    let sk := if o.nat "sk" = 0 then 1 else o.nat "sk"
+    let sa := if o.nat "sk" = 0 then pa else o.bytes "sa"
     let cfg : Cfg := { chainId := "vchain", initialHeight := o.nat "ih", genesisTime := o.nat "gt",
-                       proposerAddr := pa, key := 1, signerAddr := pa, maxPending := o.nat "maxp" }
+                       proposerAddr := pa, key := sk, signerAddr := sa, maxPending := o.nat "maxp" }
     doStart { cfg := cfg, cache := noCache } {} (CacheDir.restartAfterSaveCrash f cfg {} noCache [])
   | "step" =>
     if !s.alive then (s, "dead") else
@@ -108,7 +117,7 @@ def step (f : CacheDir.Facts) (s : St) (line : String) : St × String :=
     | some resp =>
       let ex := if o.str "exec" = "fail" then ExecResp.fail else ExecResp.ok
       let before := s.node.store
-      let (n', ws, out) := publish s.cfg s.node resp ex
+      let (n', ws, out) := publishB s.cfg s.node resp ex
       let ran := match out with | .ok => true | .errValidate _ => true | _ => false
       let exec :=
         if ran then
@@ -119,9 +128,13 @@ def step (f : CacheDir.Facts) (s : St) (line : String) : St × String :=
       ({ s with node := n', before := before, ws := ws }, observe n' (outClass out) ws exec)
   | "crash" =>
     if !s.alive then (s, "dead") else
-    -- the harness restarts a crashed node on a fresh cache directory
+    -- a crash outside `SaveCache` leaves the cache directory as the last clean stop left it (complete files of
+    -- an older generation, possibly a mixed set after a cut save, or nothing): no save has begun on any file
     let disk := s.before.applyPrefix (o.nat "keep") s.ws
-    doStart { s with cache := noCache } disk (CacheDir.restartAfterSaveCrash f s.cfg disk noCache [])
+    let pts : List CacheDir.SavePoint := List.replicate CacheDir.fileNames.length .before
+    let imgs := CacheDir.crashImages f s.cache pts
+    let cfg := swapKey s.cfg o
+    doStart { s with cfg := cfg, cache := imgs.map (·.old) } disk (CacheDir.restartAfterSaveCrash f cfg disk s.cache pts)
   | "restart" =>
     if !s.alive then (s, "dead") else
     -- clean stop: every write is durable and the caches are saved; `cut=<file> frac=<n>`: a crash during the save
@@ -133,7 +146,8 @@ def step (f : CacheDir.Facts) (s : St) (line : String) : St × String :=
       | some i => CacheDir.seqPoints n i (100 ≤ o.nat "frac")
       | none => List.replicate n .after
     let imgs := CacheDir.crashImages f s.cache pts
-    doStart { s with cache := imgs.map (·.old) } disk (CacheDir.restartAfterSaveCrash f s.cfg disk s.cache pts)
+    let cfg := swapKey s.cfg o
+    doStart { s with cfg := cfg, cache := imgs.map (·.old) } disk (CacheDir.restartAfterSaveCrash f cfg disk s.cache pts)
   | _ => (s, "bad-op")
 
 end Drv.Prod
